@@ -344,7 +344,7 @@ def anchors_of(crates):
                 a.add(b.path)
         BR = E0.BR
         for r in BR.v.values():
-            for nm in ("place", "init", "extend", "find_base", "verify", "sanitise", "nfa_fn"):
+            for nm in ("place", "init", "extend", "find_base", "sanitise", "nfa_fn"):
                 b = getattr(r, nm, None)
                 if b is not None:
                     a.add(b.path)
